@@ -1103,6 +1103,9 @@ class Translator:
         if spec.get("mode") == "smcloop":
             from . import loop2lean
             return loop2lean.translate(self, name, spec, fn)
+        if spec.get("mode") == "codec":
+            from . import codec2lean
+            return codec2lean.translate(self, name, spec, fn)
         if spec.get("mode") == "rows":
             from . import rows2lean
             return rows2lean.translate(self, name, spec, fn)
